@@ -22,7 +22,11 @@ type StepCounter struct {
 	OnStep    func(vm *ugo.VM, step int64)
 	inHook    bool
 	allocBase uint64
+	prevSteps int64
 }
+
+// AllocTrips counts how often an allocation guard ended a workload in this process.
+var AllocTrips int
 
 var allocMetric = []metrics.Sample{{Name: "/gc/heap/allocs:bytes"}}
 
@@ -39,6 +43,10 @@ func (sc *StepCounter) Install() (restore func()) {
 			return
 		}
 		sc.Steps++
+		if sc.Steps <= sc.prevSteps {
+			sc.allocBase = 0 // the engine reset the counter: a new run, a new allowance
+		}
+		sc.prevSteps = sc.Steps
 		vm := (*ugo.VM)(obj)
 		if sc.Steps&31 == 0 && sc.Cap > 0 {
 			// allocation guard: a generated workload that doubles a string or array in a loop is ended like one
@@ -48,6 +56,7 @@ func (sc *StepCounter) Install() (restore func()) {
 				sc.allocBase = a
 			} else if a-sc.allocBase > 1<<30 {
 				sc.Steps = sc.Cap + 1
+				AllocTrips++
 			}
 		}
 		if sc.AbortAt > 0 && sc.Steps == sc.AbortAt {
